@@ -93,8 +93,16 @@ func TestC04(t *testing.T) {
 		// the bank's send-enabled switch (a governance parameter): off by default or for one denomination
 		distrSendSwitch = []string{"", "", "", "default", Denom, "uatom"}[rapid.IntRange(0, 5).Draw(t, "sendSwitch")]
 		defer func() { distrSendSwitch = "" }()
+		drawRolledBack(t, blocks)
 		fractional, r := runDistrCase(t, cfg, inflows, blocks, func(r *DistrRun) { r.CheckModel(t) })
+		rolledBackAfter, restartAfter = nil, nil // the twins run without
 		cl := cfg.Classes()
+		if rolledBackProposals > 0 {
+			cl["proposal_replanning_the_configuration_rolled_back"] = true
+		}
+		if r.Restarts > 0 {
+			cl["node_restarted_between_blocks"] = true
+		}
 		if distrSendSwitch != "" {
 			cl["bank_transfers_switched_off"] = true
 		}
